@@ -322,6 +322,8 @@ func checkC07(c *Ctx) {
 		c.ruleUniformSize(ab)
 	}
 	c.ruleNoAlias("G9.copy")
+	c.ruleDecodeReplaces("G14.replace", func(f *ssa.Function) bool { return strings.Contains(name(f), "efi/signature.") })
+	c.R.Floor("G14.replace", 2)
 	c.R.Floor("G1.pair", 2)
 	c.R.Floor("G2.kept", 1)
 	c.R.Floor("G5.layout", 2)
@@ -401,6 +403,10 @@ func checkC08(c *Ctx) {
 	if rl == nil || rd == nil || db == nil {
 		return
 	}
+	c.ruleLoopAlias("G13.distinct", func(f *ssa.Function) bool { return strings.Contains(name(f), "efi/signature.") })
+	c.R.Floor("G13.distinct", 2)
+	c.ruleExactConsumption("G12.exact", "efi/signature.ReadSignatureList", "efi/signature.ReadSignatureData")
+	c.R.Floor("G12.exact", 2)
 	scope := map[*ssa.Function]bool{}
 	reach, _ := c.Reachable([]*ssa.Function{db})
 	for f := range reach {
@@ -986,4 +992,56 @@ func (c *Ctx) wireLeaves(fn *ssa.Function, isRead bool) ([]leaf, string) {
 		opaque += "; deep extraction: " + why
 	}
 	return nil, opaque
+}
+
+// ruleDecodeReplaces (G14): an Unmarshal method overwrites its receiver with
+// what it decoded. A store into the receiver whose value derives from the
+// receiver's previous content (append to itself) makes a second decode into the
+// same value accumulate, so decode(encode(x)) into a used value is not x.
+func (c *Ctx) ruleDecodeReplaces(rule string, in func(*ssa.Function) bool) int {
+	n := 0
+	for _, fn := range c.P.LibFunctions() {
+		if fn.Name() != "Unmarshal" || fn.Signature.Recv() == nil || len(fn.Params) == 0 || (in != nil && !in(fn)) {
+			continue
+		}
+		recv := fn.Params[0]
+		if _, isPtr := recv.Type().Underlying().(*types.Pointer); !isPtr {
+			continue
+		}
+		n++
+		dv := c.deepViewOf(fn, 3)
+		accum, reset := "", false
+		stores := 0
+		for _, di := range dv.order {
+			st, ok := di.i.(*ssa.Store)
+			if !ok {
+				continue
+			}
+			// a store to the receiver object itself (not to one of its fields)
+			if r := dv.resolve(st.Addr, di.fr); r.fr != dv.root || r.v != ssa.Value(recv) {
+				continue
+			}
+			stores++
+			self := false
+			for v := range c.sliceOf(st.Val) {
+				if ld, isLd := v.(*ssa.UnOp); isLd && ld.Op == token.MUL {
+					if r := dv.resolve(ld.X, di.fr); r.fr == dv.root && r.v == ssa.Value(recv) {
+						self = true
+					}
+				}
+			}
+			if self {
+				accum = c.IPos(st)
+			} else {
+				reset = true
+			}
+		}
+		if stores == 0 {
+			c.R.Infof(rule, name(fn), "receiver", c.Pos(fn.Pos()), "the decoder fills the fields of its receiver one by one (no whole-value store): not judged by this rule")
+			continue
+		}
+		c.R.Check(accum == "" || reset, rule, name(fn), "receiver", c.Pos(fn.Pos()),
+			"the decoder replaces the receiver's value with what it decoded", "the value stored into the receiver at "+accum+" is built from the receiver's previous content: decoding into a value that is already in use appends instead of replacing")
+	}
+	return n
 }
